@@ -54,6 +54,10 @@ pub fn pool() -> Vec<Template> {
         t("ld {x: i8}", "0x14 @ x", &[Typed('i', 8)]),
         t("ld {x}h", "0x15 @ x`8", &[Untyped]),
         t("nop", "0x16", &[]),
+        // the same rule once more (and one with the same pattern and another body): an exact tie is an error, also when
+        // both candidates would emit the same bits
+        t("nop", "0x16", &[]),
+        t("ld a", "0x05", &[]),
         t("ldw {x: u4}", "0xab @ x", &[Typed('u', 4)]),
         t("ld a, {x: u8}", "0x17 @ x", &[Typed('u', 8)]),
         t("ld {x: u8}, a", "0x18 @ x", &[Typed('u', 8)]),
@@ -360,7 +364,7 @@ pub fn f2_prog(seq: &[usize], items: &[Item], banked: bool) -> Prog {
 pub fn run(ctx: &Ctx) -> Report {
     let mut rep = Report::new(
         "model_checking",
-        "F1: every rule set of 1..k templates from a 37-template pool (prefix-sharing mnemonics, literal/typed/untyped/sub-rule operands, wrappers, glued and suffix literals, tie and smallest-wins pairs, slices, le(), $-relative) x every line of the whole pool (every range boundary, labels before/after, constant, undefined name) + malformed lines; F2: fixed 8-rule set x all item sequences up to a length (labels global/nested, constants, data of several widths, #res/#align/#addr, two banks); each compared (success, bits, symbol values) with the reference assembler. Non-trivial = the reference defines the outcome and the program emits >=1 item or is rejected by the rules; distinct by program text.",
+        "F1: every rule set of 1..k templates from a 39-template pool (prefix-sharing mnemonics, literal/typed/untyped/sub-rule operands, wrappers, glued and suffix literals, tie and smallest-wins pairs, slices, le(), $-relative) x every line of the whole pool (every range boundary, labels before/after, constant, undefined name) + malformed lines; F2: fixed 8-rule set x all item sequences up to a length (labels global/nested, constants, data of several widths, #res/#align/#addr, two banks); each compared (success, bits, symbol values) with the reference assembler. Non-trivial = the reference defines the outcome and the program emits >=1 item or is rejected by the rules; distinct by program text.",
     );
     let pool = pool();
     let opts = Opts::iters(30);
